@@ -60,14 +60,15 @@ type batchSpec struct {
 
 // modSpec describes the in-place modification of a get-modify-set.
 type modSpec struct {
-	Group string   `json:"group"`
-	ID    string   `json:"id"`
-	Via   string   `json:"via,omitempty"` // getter the edited object was obtained from ("" = GetRule)
-	Field string   `json:"field"`         // count labels index override role start end
-	Int   int      `json:"int,omitempty"`
-	Bool  bool     `json:"bool,omitempty"`
-	Str   string   `json:"str,omitempty"`
-	Strs  []string `json:"strs,omitempty"`
+	Group string     `json:"group"`
+	ID    string     `json:"id"`
+	Via   string     `json:"via,omitempty"` // getter the edited object was obtained from ("" = GetRule)
+	Field string     `json:"field"`         // count labels index override role start end
+	Int   int        `json:"int,omitempty"`
+	Bool  bool       `json:"bool,omitempty"`
+	Str   string     `json:"str,omitempty"`
+	Strs  []string   `json:"strs,omitempty"`
+	Cons  []consSpec `json:"cons,omitempty"`
 	// Again: after the SetRule succeeded the caller edits the same object once more (count = Int2)
 	// and sets it again (server.SetReplicationConfig rolling back after a failed Persist).
 	Again bool `json:"again,omitempty"`
@@ -613,6 +614,10 @@ func modifySpec(r *ruleSpec, m *modSpec) {
 		r.StartHex = m.Str
 	case "end":
 		r.EndHex = m.Str
+	case "iso":
+		r.Iso = m.Str
+	case "cons":
+		r.Cons = append([]consSpec(nil), m.Cons...)
 	}
 }
 
